@@ -26,6 +26,14 @@ import (
 )
 
 func init() {
+	// C08: a BUS / STAR member that is behind (queue full, a message waiting for room) sets an
+	// unrelated option: every message already carried to it is still delivered, its peers stay
+	vexplore.Register("C08", func(tier string) []*vexplore.Scenario {
+		return []*vexplore.Scenario{
+			{Name: "options-set-by-a-member-that-is-behind", Mode: "enum", Reset: kit.ResetGlobals, Body: OtherOptionsParked,
+				NeedCounters: []string{"option-set-with-a-message-waiting-for-room"}},
+		}
+	})
 	// C14: the reconnect options (and asynchronous dialing) set on the socket after a dialer was
 	// created are the dialer's: it answers them and paces its attempts by them
 	vexplore.Register("C14", func(tier string) []*vexplore.Scenario {
@@ -50,6 +58,8 @@ func init() {
 			{Name: "unsupported-option-on-an-endpoint-beside-a-socket-option", Mode: "sched", Bound: map[string]int{"quick": 2, "thorough": 3}[tier], Reset: kit.ResetGlobals, Body: unsupportedBesideSocketOption},
 			{Name: "unsupported-operations-have-no-side-effect", Mode: "enum", Reset: kit.ResetGlobals, Body: unsupportedNoSideEffect,
 				NeedCounters: []string{"refused-send-left-the-message-with-the-caller", "refused-recv-returned-at-once"}},
+			{Name: "other-options-set-while-a-connection-waits-for-room", Mode: "enum", Reset: kit.ResetGlobals, Body: OtherOptionsParked,
+				NeedCounters: []string{"option-set-with-a-message-waiting-for-room"}},
 			{Name: "socket-options-reach-existing-dialers", Mode: "enum", Reset: kit.ResetGlobals, Body: sockOptsExisting,
 				NeedCounters: []string{"passed-on-to-existing-dialer"}},
 			{Name: "surveyor-readqlen-per-context", Mode: "enum", Reset: kit.ResetGlobals, Body: surveyorQLen,
@@ -339,6 +349,88 @@ func QlenParked(detach bool) {
 		}
 	}
 	kit.Observe("%s %d", k.Name, nl)
+	kit.Must("Close", func() { _ = x.S.Close() })
+}
+
+// OtherOptionsParked: the receive queue (length 1) is full and the connection's receiver waits for
+// room with another message in hand when an option that has nothing to do with the queue is set -
+// a deadline, the send queue length, the hop limit, a mode (every value the socket accepts).  No
+// peer is disconnected, nothing that waited is lost or duplicated, traffic continues.
+func OtherOptionsParked() {
+	var ks []*kinds.Kind
+	for _, k := range kinds.All {
+		if k.CanRecv {
+			ks = append(ks, k)
+		}
+	}
+	k := ks[kit.ChooseFree(len(ks))]
+	type ov struct {
+		name string
+		val  interface{}
+	}
+	opts := []ov{{mangos.OptionRecvDeadline, time.Hour}, {mangos.OptionSendDeadline, time.Hour}, {mangos.OptionWriteQLen, 5}, {mangos.OptionTTL, 5},
+		{mangos.OptionBestEffort, false}, {mangos.OptionRetryTime, time.Minute}, {mangos.OptionSurveyTime, time.Hour}, {mangos.OptionMaxRecvSize, 1 << 20}, {mangos.OptionFailNoPeers, false}}
+	o := opts[kit.ChooseFree(len(opts))]
+	x := k.Open("c19o", false, false)
+	x.Quiet()
+	if err := x.S.SetOption(mangos.OptionReadQLen, 1); err != nil {
+		return
+	}
+	detached := 0
+	x.S.SetPipeEventHook(func(ev mangos.PipeEvent, _ mangos.Pipe) {
+		if ev == mangos.PipeEventDetached {
+			detached++
+		}
+	})
+	x.P = x.EP.Connect()
+	kit.Quiesce()
+	x.PrepRecv()
+	for i := 0; i < 3; i++ {
+		x.Feed(fmt.Sprintf("queued-%d", i))
+		kit.Quiesce()
+	}
+	// reference: the same history without the option call decides how many of the three come out
+	// (patterns that drop on overflow keep fewer); here only safety is judged
+	c := kit.Start("SetOption", func() (interface{}, error) { return nil, x.S.SetOption(o.name, o.val) })
+	kit.Quiesce()
+	if !c.Done() {
+		kit.Failf("option-call-blocked:"+k.Name+":"+o.name, "%s: ReadQLen 1, three messages arrived (none received), SetOption(%s,%v) did not return", k.Name, o.name, o.val)
+	}
+	if c.Err != nil {
+		return // not an option of this pattern (or not this value)
+	}
+	if detached > 0 || x.P.ClosedByMangos() {
+		kit.Failf("option-detach:"+k.Name+":"+o.name, "%s: ReadQLen 1, three messages arrived on one connection (none received yet), then SetOption(%s,%v): the connection was closed (Detached fired %d time(s)) - setting an option never disconnects a peer", k.Name, o.name, o.val, detached)
+	}
+	kit.Count("option-set-with-a-message-waiting-for-room")
+	if k.Name != "req" && k.Name != "surveyor" {
+		last := -1
+		for i := 0; i < 5; i++ {
+			d := kit.Start("drain", func() (interface{}, error) { return x.Recv() })
+			kit.Quiesce()
+			if d.Done() && d.Err == nil {
+				v := d.Val.(string)
+				n := -1
+				_, _ = fmt.Sscanf(v, "queued-%d", &n)
+				if n <= last || n > 2 {
+					kit.Failf("option-wrong-messages:"+k.Name+":"+o.name, "%s: messages queued-0..2 arrived (queue of one), SetOption(%s), then Recv returned %q after queued-%d", k.Name, o.name, clipS(v), last)
+				}
+				last = n
+			}
+			if !d.Done() {
+				x.Feed("after-the-option")
+				kit.Quiesce()
+				if !d.Done() || d.Err != nil || d.Val.(string) != "after-the-option" {
+					kit.Failf("option-stuck:"+k.Name+":"+o.name, "%s: after SetOption(%s) with messages waiting and the queue drained, the peer sent one more message: Recv done=%v %s %q", k.Name, o.name, d.Done(), kit.ErrName(d.Err), d.Val)
+				}
+				break
+			}
+		}
+		if detached > 0 || x.P.ClosedByMangos() {
+			kit.Failf("option-detach:"+k.Name+":"+o.name, "%s: the connection was closed after SetOption(%s,%v) while draining", k.Name, o.name, o.val)
+		}
+	}
+	kit.Observe("%s %s", k.Name, o.name)
 	kit.Must("Close", func() { _ = x.S.Close() })
 }
 
